@@ -300,6 +300,26 @@ def campaign(c):
             c.case(('path', args[0]), None)
     finally:
         shutil.rmtree(d, ignore_errors=True)
+    # (3a) an error raised while EXECUTING a statement is reported at a line within that statement - for every class of such an
+    #      error, a statement that spans one or several lines, as the last statement of the file or not, with and without
+    #      remarks, blank lines and further text after it
+    FAILING = [('Name', 'let z = text::concat("a",\n  undef_name,\n  "c");', 3), ('Type', 'let z = text::concat(\n  true);', 2), ('Import', 'import nosuchmodule;', 1),
+               ('MultipleAssign', 'let b = 1;', 1), ('Runtime', 'let z = eth::frame("|00|",\n "|00|");', 2), ('Name', 'f.nosuch(\n1,\n2\n);', 4), ('Type', 'f.open(\n\n 1);', 3), ('Name', 'undef;', 1)]
+    TRAIL = ['', '\n', '# vim: set ft=resynth :\n', '\n\n// end\n# really\n', '   \n\t\n', 'let after = 1;\n', 'let after = 1;\n# remark\n\n', '"dangling" # never closed statement\n']
+    pre4 = 'import text;\nimport eth;\nimport ipv4;\nlet b = 0;\nlet f = ipv4::tcp::flow(1.2.3.4:5, 6.7.8.9:80);\n# remark\n\n'
+    first = pre4.count('\n') + 1
+    for cls, stmt, nl in FAILING:
+        for tr in TRAIL:
+            for nonl in (False, True):
+                src = (pre4 + stmt + '\n' + tr)
+                if nonl: src = src.rstrip('\n')
+                src = src.encode()
+                impl, model = progdiff.run_both(c, src)
+                judge_cli(c, src, impl, model, 'error-line')
+                o = impl['outcome']
+                if o[0] == 'failure' and o[1] == cls and not (first <= o[2][0] < first + nl):
+                    c.violation('total:position-outside-statement', 'a %s error raised by the statement on lines %d-%d is reported at line %d' % (cls, first, first + nl - 1, o[2][0]), dict(src=src.decode(), src_hex=src.hex()))
+        c.case(('error-line', cls, stmt), dict(kind='error-line', cls=cls, stmt=stmt))
     # (3b) values that a computation maps to a special result: UDP datagrams whose checksum computes to zero (transmitted as all
     #      ones, RFC 768) on every checksumming path, in both directions, framed and raw, alone and inside a tunnel
     from .C03 import zero_fold_payload
